@@ -44,7 +44,7 @@ func runC15Deep(ops []string) CaseResult {
 			if out != "ok" {
 				res.Fails = append(res.Fails, fmt.Sprintf("op %d: Deserialize rejects a hash-consistent chain: %s", i, out))
 			} else {
-				followUps(i, &res, tags, "Deserialize", loaded, data)
+				followUps(i, &res, "Deserialize", loaded, data)
 			}
 		case "deepv":
 			out = timed(i, &res, "VerifyBlockProof", len(data), func() string {
